@@ -137,10 +137,22 @@ def splitVectorAt (len parts : ℕ) : ℕ → ℕ
 
 def splitVector (len parts : ℕ) : List ℕ := (List.range parts).map (splitVectorAt len parts)
 
-/-- `subdivide(objs, n)` with `n` already expanded to one entry per direction.
-A periodic direction with a single splitting point makes `split` return an object instead of a
-list; the code then does `new_results += <object>` (which iterates the object's control points).
-The model follows the PROPERTY there and keeps the opened object as the only piece. -/
+/-- `subdivide(objs, n)` with `n` already expanded to one entry per direction; mirrors the code
+statement by statement.
+
+```
+for obj in result:
+    splitting_points = [obj.knots(d)[i] for i in _splitvector(len(obj.knots(d)), n[d]+1)]
+    new_results += obj.split(splitting_points[1:], d)
+```
+A periodic direction with a single splitting point makes `split` return an OBJECT instead of a
+list.  `new_results += <object>` is then not a list extension: CPython tries the number slots
+before the sequence slots, so `SplineObject.__radd__(new_results)` runs, i.e.
+`copy(obj).translate(new_results)`.  With `new_results == []` the loop
+`translation_matrix[i, -1] = x[i]` raises `IndexError` (the dimension is at least 1); with a
+non-empty list of objects numpy refuses to store an object in the matrix (`ValueError`).  Either
+way the call fails (finding class `subdivide-periodic-direction-single-split`; the property would
+want the opened object as the only piece). -/
 def subdivide (objs : List (Obj K)) (tol : K) (n : List ℕ) : PyM (List (Obj K)) :=
   let pardim := (objs.headD default).pardim
   (List.range pardim).foldlM (fun (result : List (Obj K)) d =>
@@ -151,6 +163,6 @@ def subdivide (objs : List (Obj K)) (tol : K) (n : List ℕ) : PyM (List (Obj K)
       let r ← obj.split tol (pts.drop 1) d
       match r with
       | .many ps => pure (acc ++ ps)
-      | .single o => pure (acc ++ [o])) []) objs
+      | .single _ => if acc.isEmpty then throw .index else throw .value) []) objs
 
 end Splipy
